@@ -130,6 +130,24 @@ theorem flushStep_comm (objs : Cache) (t : Content) (a b : Nat) :
           funext k <;> by_cases h1 : k = a <;> by_cases h2 : k = b <;> simp [h1, h2, hab, hba]
         all_goals (subst h1; exact absurd h2 hab)
 
+theorem stakingStep_comm (recs : Nat → Option Nat) (acc : Content × Bool) (a b : Nat) :
+    stakingStep recs (stakingStep recs acc a) b = stakingStep recs (stakingStep recs acc b) a := by
+  by_cases hab : a = b
+  · subst hab; rfl
+  · have hba : b ≠ a := fun h => hab h.symm
+    unfold stakingStep
+    cases ha : recs a with
+    | none => cases hb : recs b <;> rfl
+    | some va =>
+      cases hb : recs b with
+      | none => rfl
+      | some vb =>
+        simp only []
+        congr 1
+        funext k
+        by_cases h1 : k = a <;> by_cases h2 : k = b <;> simp [h1, h2, hab, hba]
+        all_goals (subst h1; exact absurd h2 hab)
+
 /-- The object cache after Finalise does not depend on the order either (needed because the flush reads it). -/
 theorem finalise_perm {oj oj' : List Nat} (p : oj.Perm oj') (s : FState) :
     oj.foldl finaliseStep s = oj'.foldl finaliseStep s :=
